@@ -418,6 +418,10 @@ def for_program(idx, spec):
     else:
         return None
     stop = "  break if out.length >= 7\n" if k in ("ecr", "eor") else ""
+    if idx % 2 == 1 and k != "gen":
+        # the iterable held in a variable: the compiler cannot specialise the loop on a literal in the header
+        decl += "rv := %s\n" % recv
+        recv = "rv"
     src = ("module C23F%d\nend\n%sout := [0]\nout.remove_at(0)\nfor i in %s\n%s  out << i\nend\nprintln(out.inspect)\n"
            % (idx, decl, recv, stop))
     return {"id": "f%d" % idx, "src": src, "timeout_ms": 4000}
@@ -513,7 +517,10 @@ def run(ctx):
     # Elk source: the same operations through parser, checker, compiler and VM dispatch
     plines = [l for l in (gen_line(ctx.rng, orders) for _ in range(ctx.n(1500, 12000))) if l.split("\t")[2].startswith(("list:", "tuple:"))]
     plines = plines[:ctx.n(200, 3000)]
+    # every range kind in a `for` header, as a literal and held in a variable (for_program alternates by index)
     specs = []
+    for sp in ("cr:1:4", "or:1:4", "lor:1:4", "ror:1:4", "ecr:1", "eor:1", "cr:4:1", "or:2:3", "lor:3:3", "ror:-2:0", "ecr:-3", "eor:-1"):
+        specs += [sp, sp]
     for _ in range(ctx.n(100, 1500)):
         s = gen_source(ctx.rng, orders)
         if not s.startswith(("it.", "listit", "tupleit", "setit")):
